@@ -89,8 +89,10 @@ func (m *Model) AddDeco(inst string, f *u.Func, scope int, step int) *Deco {
 // be the whole slice, keyed by element type.
 func DecoKey(r u.RLeaf) u.Key {
 	k := r.Keys[0]
-	if k.Group != "" && len(k.T) > 2 && k.T[0] == '[' {
-		k.T = k.T[1 : len(k.T)-1]
+	if k.Group != "" {
+		if e, ok := u.SliceElem(k.T); ok {
+			k.T = e
+		}
 	}
 	return k
 }
